@@ -745,12 +745,15 @@ pub fn alphabet(p: &Program, rich: bool) -> Vec<Op> {
     // macro-operations: an edit immediately followed by a query of the root
     // (reaches "query; edit; query; edit; query" at depth 3)
     let root = Key::C(n - 1);
+    // "query everything": the root first (so that repair starts at the top),
+    // then every other node, inside one tracked engine
+    let all_top_down: Vec<Key> = (0..n).rev().map(Key::C).collect();
     for &i in &ins {
         let vals: &[Val] = if i == 0 { &[1, 2, 0] } else { &[1, 0] };
         for &v in vals {
             ops.push(Op::Multi(vec![
                 Op::Session { writes: vec![W::Set(i, v)], commit: true },
-                Op::Query(vec![root]),
+                Op::Query(all_top_down.clone()),
             ]));
         }
     }
